@@ -11,7 +11,7 @@
    save_body c st p = the body a save produces for plaintext p when the encryptor IV is st;
    session_plain d t = 8-byte expiry followed by the data. *)
 From CppcmsV Require Import Base.Tac Base.CSem Base.Sweep C15.Defs C05.Defs C05.Proofs C05.ProofsAes C05.ProofsCookies
-  C05.ProofsConfig C05.Toy C05.Link gen.Gen_c05key.
+  C05.ProofsConfig C05.ProofsTrace C05.Toy C05.Link gen.Gen_c05key.
 Local Open Scope N_scope.
 
 Definition hmac_fixed_len (hmac : N -> list N -> list N -> list N) (dlen : N -> nat) : Prop :=
@@ -136,6 +136,30 @@ Proof.
   repeat split; try (vm_compute; congruence); try reflexivity.
   repeat (apply bytes_ok_cons; split; [lia|]). constructor.
 Qed.
+
+(* the same over a whole server history (any interleaving of saves and loads; the encryptor IV evolves with the saves):
+   by induction over the history, every accepted load returns the data and expiry of a save made EARLIER in that
+   history, provided that along the history no body is presented with a correct MAC before it was issued *)
+Theorem history_accepted_only_if_issued_earlier : forall hmac dlen E D,
+  hmac_fixed_len hmac dlen -> block_len E -> block_len D -> block_inverse E D -> hmac_bytes_ok hmac -> block_bytes_ok E ->
+  forall c ops st hist, length st = 16%nat -> Forall save_ok hist -> Forall op_ok ops ->
+  unforgeable hmac E c st hist ops -> accepted_were_issued hmac dlen E D c st hist ops.
+Proof. exact history_accepts_only_issued. Qed.
+Print Assumptions history_accepted_only_if_issued_earlier.
+
+Example history_nonvacuous :
+  (* save, load it back, load a cookie with a wrong tag: answers of the toy instance *)
+  let ck := fst (cookies_save toy_hmac toy_E toy_aes_cfg toy_iv [7;7] 90) in
+  exists bad, run toy_hmac toy_dlen toy_E toy_D toy_aes_cfg toy_iv [OSave [7;7] 90; OLoad ck 80; OLoad ck 91; OLoad bad 80]
+              = [inl ck; inr (Accept [7;7] 90); inr (Reject true); inr (Reject true)] /\ bad <> ck /\ length bad = length ck.
+Proof. cbv zeta. exists (67 :: 66 :: tl (tl (fst (cookies_save toy_hmac toy_E toy_aes_cfg toy_iv [7;7] 90)))). vm_compute. repeat split; congruence. Qed.
+
+(* all spellings of one cipher text (non-alphabet characters, unused low bits of the last character) are treated alike *)
+Theorem verdict_depends_on_decoded_text_only : forall hmac dlen D c now ivd r1 r2,
+  decode_str r1 = decode_str r2 ->
+  cookies_load hmac dlen D c now ivd (67 :: r1) = cookies_load hmac dlen D c now ivd (67 :: r2).
+Proof. exact load_decoded_only. Qed.
+Print Assumptions verdict_depends_on_decoded_text_only.
 
 (* ===== 4. mutations: acceptance of a changed cookie is exactly a MAC collision ===== *)
 (* any cipher text body' ++ tag' (tag of the right length) that is accepted has tag' = MAC(body') *)
@@ -279,11 +303,18 @@ Theorem combined_key_split_exactly : forall hmac (dlen : N -> nat) cks k, length
 Proof. exact aes_combined_split. Qed.
 Print Assumptions combined_key_split_exactly.
 
+Theorem key_file_trailing_blanks_ignored : forall s w, s <> [] -> forallb is_ws w = true ->
+  key_of_src (KFile (s ++ w)) = key_of_src (KFile s).
+Proof. exact key_file_trailing_blanks. Qed.
+Print Assumptions key_file_trailing_blanks_ignored.
+
 Example configuration_nonvacuous :
-  pool_config [] [] [97;101;115] [] [] [48;48] = inl (PrepErr 3 false) /\
+  pool_config [] [] [97;101;115] (KHex []) (KFile []) (KHex [48;48]) = inl (PrepErr 3 false) /\
   prepare toy_hmac toy_dlen (RHmac [115;104;97;49] [1;2;3]) = PrepErr 8 false /\
-  prepare toy_hmac toy_dlen (RHmac [83;72;65;49] toy_key) = PrepOk (CHmac 1 toy_key).
-Proof. vm_compute. auto. Qed.
+  prepare toy_hmac toy_dlen (RHmac [83;72;65;49] toy_key) = PrepOk (CHmac 1 toy_key) /\
+  key_of_src (KFile [65;98;10;13;32]) = KeyOk [171] /\ key_of_src (KFile [65;32;98;10]) = KeyBadHex /\
+  pool_config [104;109;97;99] [] [] (KFile []) (KHex []) (KHex []) = inl (PrepErr 11 false).
+Proof. vm_compute. repeat split; reflexivity. Qed.
 
 (* ===== 8. tie to the source: crypto::key::from_hex regenerated from src/crypto.cpp equals the model's digit value ===== *)
 Theorem source_from_hex_is_model_hexv : forall b, b < 256 ->
